@@ -29,6 +29,8 @@ from .c17 import PositionalLocal
 ID = 'C16'
 MESSAGES = (('rpc', 'pause', 'm'), ('rpc', 'play'), ('rpc', 'kill', 't1'), ('rpc', 'status'),
             ('bc', 'pause', 'bm'), ('bc', 'play'), ('bc', 'kill', 'bt'))
+# the same requests without a text (the optional argument left out / None)
+NOTEXT_MESSAGES = (('rpc', 'pause', None), ('rpc', 'kill', None), ('bc', 'pause', None), ('bc', 'kill', None), ('bc', 'play'))
 ASYNC_MESSAGES = (('actl', 'pause', 'am'), ('actl', 'play'), ('actl', 'kill', 'at'), ('actl', 'status'), ('rpc', 'play'))
 FAULTS = {'closed': lambda: ConnectionClosed(0, 'closed'), 'channel': lambda: ChannelInvalidStateError('invalid'),
           'timeout': lambda: kiwipy.TimeoutError('timeout')}
@@ -304,7 +306,8 @@ class Oracle:
 
 
 def cfg_for(unit: Any) -> ctl.Config:
-    alphabet = ASYNC_MESSAGES if len(unit) > 5 and unit[5] == 'async' else MESSAGES
+    tag = unit[5] if len(unit) > 5 else None
+    alphabet = {'async': ASYNC_MESSAGES, 'notext': NOTEXT_MESSAGES}.get(tag, MESSAGES)
     return ctl.Config(alphabet=alphabet, closing=('gates', 'play', 'resume'), resume_default=('dflt',))
 
 
@@ -332,9 +335,10 @@ class QuiescentWorld(CommWorld):
 
 class TwinProp:
     def make_run(self, unit: Any) -> Any:
-        program, script, wrapped = unit
-        remote_run = ctl.make_runner(cfg_for, NullOracle, cls_for=cls_for, world_cls=QuiescentWorld)((program, script, wrapped, 'remote'))
-        direct_run = ctl.make_runner(cfg_for, NullOracle, cls_for=cls_for, world_cls=QuiescentWorld)((program, script, wrapped, 'direct'))
+        program, script, wrapped = unit[:3]
+        tag = unit[3] if len(unit) > 3 else None
+        remote_run = ctl.make_runner(cfg_for, NullOracle, cls_for=cls_for, world_cls=QuiescentWorld)((program, script, wrapped, 'remote', None, tag))
+        direct_run = ctl.make_runner(cfg_for, NullOracle, cls_for=cls_for, world_cls=QuiescentWorld)((program, script, wrapped, 'direct', None, tag))
 
         def run(chooser: Chooser) -> ExecResult:
             res = remote_run(chooser)
@@ -451,22 +455,25 @@ def run_check(tier: str, seed: int, workers: Any) -> Dict[str, Any]:
     progs = units_for(tier)
     budget = {'K': 2, 'J': 1} if tier == 'quick' else {'K': 3, 'J': 1}
     part1 = runner.run_explorer(
-        factory, (), [(p, None, wrapped) for p in progs for wrapped in (False, True)], budget, seed, workers,
-        rule='(1) every placement of <=K control messages from ' + repr(MESSAGES) + ' (RPC through rpc_send, broadcasts '
-             'through RemoteProcessThreadController.*_all) and <=J early gate completions between any two loop callbacks, for '
+        factory, (), [(p, None, wrapped) for p in progs for wrapped in (False, True)]
+        + [(p, None, wrapped, 'remote', None, 'notext') for p in progs for wrapped in (False, True)], budget, seed, workers,
+        rule='(1) every placement of <=K control messages from ' + repr(MESSAGES) + ' and, as separate units, from the text-less '
+             + repr(NOTEXT_MESSAGES) + ' (RPC through rpc_send, broadcasts through RemoteProcessThreadController.*_all) and <=J early gate completions between any two loop callbacks, for '
              'a plain in-process communicator and for the same wrapped in LoopCommunicator: handler fidelity, replies, '
              'announcements, unroutability after termination; non-trivial = a message sent while the ready queue was not empty',
         assumptions=['the communicator thread is modelled by loop callbacks landing at arbitrary queue positions',
                      'an in-process communicator that calls broadcast subscribers positionally, as the RabbitMQ one does'],
-        bounds=dict(budget, program_len=2 if tier == 'quick' else 3), describe=lambda u: {'program': programs.describe(u[0]), 'wrapped': u[2]})
+        bounds=dict(budget, program_len=2 if tier == 'quick' else 3), describe=lambda u: {'program': programs.describe(u[0]), 'wrapped': u[2], 'alphabet': u[5] if len(u) > 5 else 'text'})
     small = list(programs.linear_programs(2, ('S', 'Y1', 'G'), ('cont', 'wait'), ('ret',)))
     part2 = runner.run_explorer(
-        twin_factory, (), [(p, None, wrapped) for p in small for wrapped in (False, True)], {'K': 3 if tier == 'quick' else 4, 'J': 1},
+        twin_factory, (), [(p, None, wrapped) for p in small for wrapped in (False, True)]
+        + [(p, None, wrapped, 'notext') for p in small for wrapped in (False, True)], {'K': 3 if tier == 'quick' else 4, 'J': 1},
         seed, workers,
         rule='(2) choice points only at quiescence, <=K messages: every execution is repeated with the same decisions making '
              'the equivalent direct calls instead of sending messages; state sequence, executed steps, outputs, outcome, '
              'status, replies and announcements must be equal',
-        assumptions=[], bounds={'K': 3 if tier == 'quick' else 4}, describe=lambda u: {'program': programs.describe(u[0]), 'wrapped': u[2]})
+        assumptions=[], bounds={'K': 3 if tier == 'quick' else 4},
+        describe=lambda u: {'program': programs.describe(u[0]), 'wrapped': u[2], 'alphabet': u[3] if len(u) > 3 else 'text'})
     tiny = list(programs.linear_programs(2, ('S', 'Y1'), ('cont', 'wait'), ('ret',)))
     part1b = runner.run_explorer(
         factory, (), [(p, None, wrapped, 'remote', None, 'async') for p in tiny for wrapped in (False, True)], {'K': 2, 'J': 0},
